@@ -8,6 +8,10 @@ Cases (JSON):
   {"k": "df", "attr": "column_names"|"columncount", "pre": frame, "thr": [frame, ...], "sched": [...]}
   {"k": "sicx", "valid": v|None, "h": [xev, ...]}                     sequential, single_item_cache, acting wrapped function
   {"k": "lrx", "max": m, "valid": v|None, "h": [xev, ...]}            sequential, lru_cache_with_expiry, acting wrapped function
+  {"k": "multi", "w": "sic"|"lru", "max": m, "valid": v|None, "mk": [maker, ...], "h": [["c", j, argspec] | ["t", d], ...]}
+      several decorated functions, function j made by mk[j]: "bare" (deco(f)), "direct" (deco(f, **options)) or
+      ["factory", g] (configured decorator object number g = deco(**options), made once per case, applied to every function naming g)
+  any sequential/conc case may carry "via": "direct" (default) | "factory": how its single wrapper is made
 xev = ["c", argspec, [xev, ...], raises] | ["t", d]: IF the call invokes the wrapped function, that invocation first performs the
   nested events (clock advances, further calls of the same wrapper whose exceptions it catches) and then raises (raises = true)
   or returns its value; a call served from the cache performs nothing.
@@ -69,8 +73,10 @@ LEVEL_NOTE = ("Trusted: Coq kernel + vm_compute; the granularity assumption (one
               "has exactly these exceptions). No axioms (Print Assumptions: closed).")
 DESIGN_REF = "DESIGN.md section 8, C19"
 COQ_IMPORTS = "From Orso Require Import Model.C19."
-COQ_CHECKS = {"sic": "c19_sic_check", "lru": "c19_lru_check", "conc": "c19_conc_check", "sicx": "c19_sicx_check", "lrx": "c19_lrx_check"}
-COQ_SHOW = {"sic": "c19_sic_show", "lru": "c19_lru_show", "conc": "c19_conc_show", "sicx": "c19_sicx_show", "lrx": "c19_lrx_show"}
+COQ_CHECKS = {"sic": "c19_sic_check", "lru": "c19_lru_check", "conc": "c19_conc_check", "sicx": "c19_sicx_check", "lrx": "c19_lrx_check",
+              "msic": "c19_msic_check", "mlru": "c19_mlru_check"}
+COQ_SHOW = {"sic": "c19_sic_show", "lru": "c19_lru_show", "conc": "c19_conc_show", "sicx": "c19_sicx_show", "lrx": "c19_lrx_show",
+            "msic": "c19_msic_show", "mlru": "c19_mlru_show"}
 RULE = ("sequential: histories of calls over an argument alphabet (positional, keyword, mixed, reordered keywords, ==-equal values of "
         "different type, unhashable values for the single-item cache) interleaved with clock advances below/at/above the validity period, "
         "max_size 1..4, exhaustive to a stated depth then random; concurrent: the real wrapper under the line scheduler, all interleavings "
@@ -331,13 +337,90 @@ def enc_result(r):
     return {"bad": repr(r)[:200]}
 
 
-def make_wrapper(kind, valid, mx, fn):
+def _deco_kw(kind, valid, mx):
     import orso.tools as T
 
     kw = {} if valid is None else {"valid_for_seconds": valid}
     if kind == "sic":
-        return T.single_item_cache(fn, **kw)
-    return T.lru_cache_with_expiry(fn, max_size=mx, **kw)
+        return T.single_item_cache, kw
+    return T.lru_cache_with_expiry, dict(kw, max_size=mx)
+
+
+def make_wrapper(kind, valid, mx, fn, via="direct"):
+    """direct: deco(fn, **options); factory: deco(**options)(fn) - the two ways of applying the decorator must agree."""
+    deco, kw = _deco_kw(kind, valid, mx)
+    if via == "factory":
+        return deco(**kw)(fn)
+    return deco(fn, **kw)
+
+
+def lru_default_max():
+    import orso.tools as T
+
+    d = inspect.signature(T.lru_cache_with_expiry).parameters["max_size"].default
+    if not isinstance(d, int):
+        raise ShapeError("lru_cache_with_expiry has no integer default max_size")
+    return d
+
+
+class MFn(Fn):
+    """Wrapped function number fid of a case with several decorated functions; its values name it."""
+
+    def __init__(self, clock, fid):
+        Fn.__init__(self, clock)
+        self.fid = fid
+
+    def __call__(self, *args, **kwargs):
+        r = Fn.__call__(self, *args, **kwargs)
+        return r + (self.fid,)
+
+
+def make_wrappers(kind, valid, mx, makers, fns):
+    deco, kw = _deco_kw(kind, valid, mx)
+    factories = {}
+    ws = []
+    for m, fn in zip(makers, fns):
+        if m == "bare":
+            if valid is not None or (kind == "lru" and mx != lru_default_max()):
+                raise ValueError("bare decoration has the default options")
+            ws.append(deco(fn))
+        elif m == "direct":
+            ws.append(deco(fn, **kw))
+        else:
+            if m[1] not in factories:
+                factories[m[1]] = deco(**kw)
+            ws.append(factories[m[1]](fn))
+    return ws
+
+
+def run_multi(case, clock):
+    kind = case["w"]
+    fns = [MFn(clock, j) for j in range(len(case["mk"]))]
+    ws = make_wrappers(kind, case["valid"], case.get("max", 0), case["mk"], fns)
+    outs = []
+    for ev in case["h"]:
+        if ev[0] == "t":
+            clock.now += ev[1]
+            continue
+        j = ev[1]
+        args, kwargs = build_args(ev[2])
+        before = len(fns[j].inv)
+        others = [len(f.inv) for f in fns]
+        try:
+            r = ws[j](*args, **kwargs)
+            if isinstance(r, tuple) and len(r) == 5 and isinstance(r[4], int):
+                o = {"res": enc_result(r[:4]), "fn": r[4]}
+            else:
+                o = {"res": {"bad": repr(r)[:200]}, "fn": -1}
+        except Exception as e:
+            o = {"exc": type(e).__name__}
+        o["hit"] = len(fns[j].inv) == before
+        o["now"] = clock.now
+        o["other_invoked"] = [i for i, f in enumerate(fns) if i != j and len(f.inv) != others[i]]
+        if kind == "lru":
+            o["keys"] = lru_keys(ws[j])
+        outs.append(o)
+    return {"calls": outs}
 
 
 def closure_cache(w):
@@ -561,15 +644,17 @@ def observe(case):
     with Patched() as clock:
         if k in ("sic", "lru"):
             fn = Fn(clock)
-            w = make_wrapper(k, case["valid"], case.get("max", 0), fn)
+            w = make_wrapper(k, case["valid"], case.get("max", 0), fn, case.get("via", "direct"))
             return {"calls": run_seq(w, fn, clock, case["h"], k == "lru")}
+        if k == "multi":
+            return run_multi(case, clock)
         if k in ("sicx", "lrx"):
             fn = XFn(clock, k == "lrx")
-            fn.w = make_wrapper("sic" if k == "sicx" else "lru", case["valid"], case.get("max", 0), fn)
+            fn.w = make_wrapper("sic" if k == "sicx" else "lru", case["valid"], case.get("max", 0), fn, case.get("via", "direct"))
             return {"calls": fn.run(case["h"])}
         if k == "conc":
             fn = Fn(clock)
-            w = make_wrapper(case["w"], case["valid"], case.get("max", 0), fn)
+            w = make_wrapper(case["w"], case["valid"], case.get("max", 0), fn, case.get("via", "direct"))
             pre = run_seq(w, fn, clock, case["pre"], False)
             n_pre = len(fn.inv)
             code, table, _ = sh[case["w"]]
@@ -840,6 +925,43 @@ def oracle_x(case, obs):
     return _walk_x(case, obs)
 
 
+def _mproj(case, obs, j):
+    """What function j sees: its own calls and every clock advance, with the observations of those calls."""
+    h, outs = [], []
+    it = iter(obs["calls"])
+    for ev in case["h"]:
+        if ev[0] == "t":
+            h.append(ev)
+            continue
+        o = next(it)
+        if ev[1] == j:
+            h.append(["c", ev[2]])
+            outs.append(o)
+    return {"k": case["w"], "valid": case["valid"], "max": case.get("max"), "h": h}, {"calls": outs}
+
+
+def oracle_multi(case, obs):
+    """Every decorated function is a memoised function of its own: a call returns a value ITS wrapped function produced,
+    invokes no other function, and function j taken alone (its calls + the clock) satisfies the single-function property."""
+    it = iter(obs["calls"])
+    for i, ev in enumerate(case["h"]):
+        if ev[0] == "t":
+            continue
+        o = next(it)
+        where = f"event {i}: function {ev[1]} (made by {case['mk'][ev[1]]}) called with {ev[2]}"
+        if o["other_invoked"]:
+            return f"{where}: the call invoked the wrapped function of function(s) {o['other_invoked']}"
+        if "exc" not in o and o["fn"] != ev[1]:
+            return (f"{where}: received {o['res']} produced by function {o['fn']}; a call must return a value its own wrapped function "
+                    "produced for equal arguments")
+    for j in range(len(case["mk"])):
+        c, ob = _mproj(case, obs, j)
+        why = (oracle_sic if case["w"] == "sic" else oracle_lru)(c, ob)
+        if why:
+            return f"function {j} (made by {case['mk'][j]}) taken alone, history {c['h']}: {why}"
+    return None
+
+
 def oracle_df(case, obs):
     for tid, (fi, o) in enumerate(zip(case["thr"], obs["thr"])):
         if "exc" in o:
@@ -851,7 +973,7 @@ def oracle_df(case, obs):
 
 
 def oracle(case, obs):
-    return {"sic": oracle_sic, "lru": oracle_lru, "conc": oracle_conc, "df": oracle_df, "sicx": oracle_x, "lrx": oracle_x}[case["k"]](case, obs)
+    return {"sic": oracle_sic, "lru": oracle_lru, "conc": oracle_conc, "df": oracle_df, "sicx": oracle_x, "lrx": oracle_x, "multi": oracle_multi}[case["k"]](case, obs)
 
 
 # ---------------------------------------------------------------- Coq literals
@@ -920,6 +1042,20 @@ def to_coq(case, obs):
             "(%s, %s, (%s : list (ckey * Z)))" % (L.boolean(c["hit"]), c_res(c["res"]), L.lst(L.pair(c_key(kk), L.Z(ts)) for kk, ts in c["keys"]))
             for c in obs["calls"])
         return ("lru", "(%s, %s, %s, %s, %s)" % (L.nat(case["max"]), c_valid(case["valid"]), L.Z(T0), c_hist(case["h"]), o))
+    if k == "multi":
+        if not _plain(obs["calls"]) or any(c["fn"] < 0 for c in obs["calls"]):
+            return None
+        hist = "(%s : list (@mev carg))" % L.lst(("(MTick %s)" % L.N(e[1])) if e[0] == "t" else "(MCall %s %s)" % (L.nat(e[1]), c_arg(e[2])) for e in case["h"])
+        n = L.nat(len(case["mk"]))
+        if case["w"] == "sic":
+            o = "(%s : list (nat * bool * cres))" % L.lst("(%s, %s, %s)" % (L.nat(c["fn"]), L.boolean(c["hit"]), c_res(c["res"])) for c in obs["calls"])
+            return ("msic", "(%s, %s, %s, %s, %s)" % (c_valid(case["valid"]), L.Z(T0), n, hist, o))
+        if any("bad" in kk for c in obs["calls"] for kk, _ in c["keys"]):
+            return None
+        o = "(%s : list (nat * bool * cres * list (ckey * Z)))" % L.lst(
+            "(%s, %s, %s, (%s : list (ckey * Z)))" % (L.nat(c["fn"]), L.boolean(c["hit"]), c_res(c["res"]), L.lst(L.pair(c_key(kk), L.Z(ts)) for kk, ts in c["keys"]))
+            for c in obs["calls"])
+        return ("mlru", "(%s, %s, %s, %s, %s, %s)" % (L.nat(case["max"]), c_valid(case["valid"]), L.Z(T0), n, hist, o))
     if k in ("sicx", "lrx"):
         fl = list(flat_x(obs["calls"]))
         if any(o["invoked"] > 1 or o.get("exc", "Boom") != "Boom" or isinstance(o.get("res"), dict) for o in fl):
@@ -973,6 +1109,10 @@ def nontrivial_key(case, obs):
         if not any(o["sub"] or "exc" in o for o in fl):
             return None
         return repr(case)
+    if k == "multi":
+        if len({e[1] for e in case["h"] if e[0] == "c"}) < 2 or not any(o.get("hit") for o in obs["calls"]):
+            return None
+        return repr(case)
     if not _interleaved(obs["sched"]):
         return None
     return repr((case["k"], case.get("w"), case.get("valid"), case.get("pre"), case["thr"], obs["sched"]))
@@ -981,6 +1121,8 @@ def nontrivial_key(case, obs):
 def classify(case, obs):
     k = case["k"]
     yield "kind:" + k + (":" + case["w"] if k == "conc" else "")
+    if case.get("via", "direct") != "direct":
+        yield "via:" + case["via"]
     if k in ("sic", "lru"):
         yield "valid=" + str(case["valid"])
         if k == "lru":
@@ -999,6 +1141,17 @@ def classify(case, obs):
             yield "clock-advanced"
         if k == "lru" and any(len(o.get("keys", [])) == case["max"] for o in obs["calls"]):
             yield "lru:full"
+    elif k == "multi":
+        yield "multi:" + case["w"]
+        yield "functions=%d" % len(case["mk"])
+        fac = [m[1] for m in case["mk"] if isinstance(m, list)]
+        if len(fac) != len(set(fac)):
+            yield "multi:one-configured-decorator-for-several-functions"
+        if "bare" in case["mk"]:
+            yield "multi:bare-decoration"
+        calls = [e for e in case["h"] if e[0] == "c"]
+        if any(a[1] != b[1] and canon(a[2]) == canon(b[2]) for a, b in zip(calls, calls[1:])):
+            yield "multi:equal-arguments-to-different-functions-in-succession"
     elif k in ("sicx", "lrx"):
         fl = list(flat_x(obs["calls"]))
         yield "valid=" + str(case["valid"])
@@ -1039,6 +1192,13 @@ def Tk(d):
 
 def X(spec, body=(), raises=False):
     return ["c", spec, [list(e) if e[0] == "t" else e for e in body], bool(raises)]
+
+
+def M(j, spec):
+    return ["c", j, spec]
+
+
+F0, F1 = ["factory", 0], ["factory", 1]
 
 
 def interleavings(n0, n1):
@@ -1106,6 +1266,12 @@ def corpus():
     yield {"k": "lrx", "max": 2, "valid": 5, "h": [X(a0), X(a1, [Tk(3), X(kx1, [X(a0), Tk(3), X(mixed, [], True)]), X(a1)]), X(a1), X(kx1)]}
     yield {"k": "sicx", "valid": None, "h": [X(a1), X(a0, [], True), X(a1), X(a0, [X(a1), X(kx1)]), X(a0), X(kx1)]}
     yield {"k": "sicx", "valid": 2, "h": [X(a1, [Tk(1), X(a1, [Tk(2)], True), X(a0)]), X(a1), Tk(2), X(a1)]}
+    # round 5: one configured decorator object applied to two functions, equal arguments in succession; bare next to it
+    yield {"k": "multi", "w": "sic", "valid": 60, "mk": [F0, F0, "direct"], "h": [M(0, a1), M(1, a1), M(2, a1), M(0, a1), M(1, a1), M(1, mixed), M(0, mixed)]}
+    yield {"k": "multi", "w": "sic", "valid": None, "mk": [F0, F0, "bare", "bare"], "h": [M(0, a1), M(1, a1), M(2, a1), M(3, a1), M(0, a1), M(3, a1)]}
+    yield {"k": "multi", "w": "lru", "max": 2, "valid": None, "mk": [F0, F0, F1], "h": [M(0, a1), M(1, a1), M(2, a1), M(1, a0), M(0, kx1), M(1, kx1), M(0, a1)]}
+    yield {"k": "sic", "valid": 2, "via": "factory", "h": [C(a1), C(a1), Tk(2), C(a1), Tk(1), C(a1), C(a0)]}
+    yield {"k": "lru", "max": 2, "valid": None, "via": "factory", "h": [C(a0), C(a1), C(a0), C(kx1), C(a1)]}
     # witness of the fixed finding F-C19-3: the wrapped function re-enters for the key being computed, then uses other keys;
     # the outer call's store must make its key the most recently used one (and evict accordingly)
     yield {"k": "lrx", "max": 2, "valid": 2, "h": [X(kx1, [X(kx1), X(a0)])]}
@@ -1150,6 +1316,25 @@ def exhaustive(tier):
                 for j in range(0, nl):
                     yield {"k": "conc", "w": "lru", "max": 2, "valid": V, "pre": pre, "thr": thr,
                            "sched": [0] * i + [Tk(V + 1)] + [1] * j + [0] * 12 + [1] * 12}
+        # round 5: several decorated functions.  Two functions, every history of depth <= 3 over {function 0 / 1} x {two packs}
+        # + a tick of the validity period, for every way of making the two wrappers: one configured decorator object for
+        # both (depth 3), two configured objects, decorator applied with options directly, mixed, bare (default options)
+        d_m = 3 if quick else 4
+        mletters = [M(j, sp) for j in (0, 1) for sp in (a1, a0)] + [Tk(2)]
+        dmax = lru_default_max()
+        for w in ("sic", "lru"):
+            for mk, valid, mx, depth in (([F0, F0], 2, 2, d_m), ([F0, F1], 2, 2, d_m - 1), (["direct", "direct"], 2, 2, d_m - 1),
+                                         ([F0, "direct"], 2, 1, d_m - 1), (["bare", "bare"], None, dmax, d_m - 1), (["bare", F0], None, dmax, d_m - 1)):
+                for d in range(1, depth + 1):
+                    for h in itertools.product(mletters, repeat=d):
+                        if len({e[1] for e in h if e[0] == "c"}) < 2:
+                            continue  # one function only: the flat histories above
+                        yield {"k": "multi", "w": w, "max": mx, "valid": valid, "mk": copy.deepcopy(mk), "h": [list(e) for e in h]}
+        # the two ways of applying the decorator to ONE function agree: the flat histories again through deco(**options)(f)
+        for d in range(1, 4):
+            for h in itertools.product(_letters(2, [a1, kx1]), repeat=d):
+                yield {"k": "sic", "valid": 2, "via": "factory", "h": [list(e) for e in h]}
+                yield {"k": "lru", "max": 1, "valid": 2, "via": "factory", "h": [list(e) for e in h]}
         # round 3: forests.  (i) every flat history in which each call may also fail; (ii) one call whose invocation
         # performs every body of <= 2 events (nested calls for a held key, a new key, its own key; a clock advance up to
         # the validity period), failing or not, on an empty / half-full / full cache; the single-item cache has no
@@ -1201,10 +1386,12 @@ def exhaustive(tier):
                   "of depth <= %s over 3 packs x {returns, raises} + 2 ticks with at least one failing call, max_size 1, 2 (quick tier at depth 3: "
                   "max_size 2, exactly one failing call), and one call whose "
                   "invocation performs every body of <= 2 events over {held key, new key, own key, tick} (raising or not) on an empty / "
-                  "half-full / full cache"
+                  "half-full / full cache; several decorated functions: two functions made by {one configured decorator object for both, "
+                  "two objects, direct, mixed, bare}, every history of depth <= %s (shared object; one less otherwise) over 2 functions x 2 packs "
+                  "+ tick involving both functions; flat histories of depth <= 3 through deco(**options)(f)"
                   ) % ("3" if quick else "5 (4 for max_size 3, 4)",
                      "all interleavings of the shared-access lines" if math.comb(2 * n, n) <= 300 else "all schedules with at most three context switches",
-                     n, len(CONC_CONFIGS_QUICK) + (0 if quick else len(CONC_CONFIGS_MORE)), "3" if quick else "4"))
+                     n, len(CONC_CONFIGS_QUICK) + (0 if quick else len(CONC_CONFIGS_MORE)), "3" if quick else "4", "3" if quick else "4"))
 
 
 def _rand_hist(rng, alphabet, valid, lo=1, hi=14):
@@ -1295,6 +1482,13 @@ def _rand_forest(rng, specs, valid, depth, lo, hi):
 
 
 def _random_x(rng):
+    c = _random_x0(rng)
+    if rng.random() < 0.4:
+        c["via"] = "factory"
+    return c
+
+
+def _random_x0(rng):
     valid = rng.choice([None, None, 0, 1, 3, 10])
     if rng.random() < 0.35:
         specs = rng.sample(ALPHA_SIC, rng.randint(1, 4))
@@ -1316,7 +1510,32 @@ def _rand_full(rng):
             "sched": _rand_sched(rng, nthr, n, ticks=rng.random() < 0.3)}
 
 
+def _random_multi(rng):
+    w = rng.choice(["sic", "lru"])
+    valid = rng.choice([None, None, 0, 1, 3, 10])
+    mx = rng.choice([1, 2, 3, lru_default_max()])
+    nf = rng.choice([2, 2, 3, 4])
+    kinds = ["direct", F0, F0, F1] + (["bare"] if valid is None and (w == "sic" or mx == lru_default_max()) else [])
+    mk = [copy.deepcopy(rng.choice(kinds)) for _ in range(nf)]
+    specs = rng.sample(ALPHA_SIC if w == "sic" else ALPHA_HASHABLE, rng.randint(1, 3))
+    v = 3 if valid is None else valid
+    h = []
+    for _ in range(rng.randint(2, 12)):
+        if rng.random() < 0.8:
+            h.append(M(rng.randrange(nf), rng.choice(specs)))
+        else:
+            h.append(Tk(rng.choice([0, 1, max(v - 1, 0), v, v + 1])))
+    return {"k": "multi", "w": w, "max": mx, "valid": valid, "mk": mk, "h": h}
+
+
 def _random_case(rng, i):
+    c = _random_case0(rng, i)
+    if c["k"] != "df" and rng.random() < 0.4:
+        c["via"] = "factory"
+    return c
+
+
+def _random_case0(rng, i):
     m = i % 10
     if m < 3:
         valid = rng.choice([None, 0, 1, 3, 10])
@@ -1342,6 +1561,8 @@ def generate(rng, tier):
         yield _random_case(rng, i)
         if i % 4 == 0:
             yield _random_x(rng)
+        if i % 5 == 2:
+            yield _random_multi(rng)
         if i % 20 == 10:
             yield _rand_full(rng)
 
@@ -1358,6 +1579,7 @@ def search(rng):
     while True:
         yield _random_case(rng, i)
         yield _random_x(rng)
+        yield _random_multi(rng)
         if i % 3 == 0:
             yield _rand_full(rng)
         i += 1
@@ -1379,6 +1601,15 @@ def _shrink_forest(h):
 
 def shrink(case):
     k = case["k"]
+    if k == "multi":
+        h = case["h"]
+        for i in range(len(h)):
+            yield dict(case, h=h[:i] + h[i + 1:])
+        used = {e[1] for e in h if e[0] == "c"}
+        for j in range(len(case["mk"]) - 1, -1, -1):
+            if j not in used and len(case["mk"]) > 1:
+                yield dict(case, mk=case["mk"][:j] + case["mk"][j + 1:], h=[(e if e[0] == "t" or e[1] < j else ["c", e[1] - 1, e[2]]) for e in h])
+        return
     if k in ("sicx", "lrx"):
         for h in _shrink_forest(case["h"]):
             yield dict(case, h=h)
